@@ -13,4 +13,12 @@ TEXTS = {
   "note": BASE_NOTE + " 'A rejected call changes no balance' relies on platform revert.",
   "technique": "MIR dispatch-table + edge-dominance of guard pass-edges over effect sites, provenance of compared operands",
   "engine": "E-STRUCT"},
+ "C09": {
+  "level": "Decides for all declared amounts x attached funds at once: the decision table of the native-funds check (Ok only in the regions cw20 / coin found and "
+           "amounts equal / no coin and amount zero; the search runs over exactly info.funds with predicate coin.denom == asset.denom), that the provide handler applies "
+           "it to every declared asset (loop without adaptors or both indices) and the swap handler to the named offer asset, with the transaction's own MessageInfo, "
+           "error propagated, and that the successful check dominates every effect, query and success exit.",
+  "note": BASE_NOTE + " The bank module crediting attached funds before execution is platform semantics.",
+  "technique": "MIR control-region decision table + must-pass-through (edge dominance) + argument provenance",
+  "engine": "E-STRUCT"},
 }
